@@ -1468,7 +1468,7 @@ func ruleDoneSignal(c *Ctx) {
 			}
 			n++
 			recvs = append(recvs, g.Obj.Name())
-			if g.Obj.Name() != "Reset" {
+			if !onBehalfOf(c.P.callGraph(), g.Obj, func(f *types.Func) bool { return f.Name() == "Reset" && recvTypeName(f) == "Client" }) {
 				bad = append(bad, g.Name+" ("+c.P.pos(u.Pos())+")")
 			}
 			return true
